@@ -34,6 +34,28 @@ impl DFA {
     }
 }
 
+#[cfg(feature = "verif")]
+impl DFA {
+    pub fn verif_input(&self, id: InpId) -> &Inp {
+        self.inputs.lookup(id)
+    }
+
+    pub fn verif_inputs(&self) -> impl Iterator<Item = (InpId, &Inp)> {
+        self.inputs.pairs()
+    }
+}
+
+#[cfg(feature = "verif")]
+impl DFAInternPool {
+    pub fn verif_lookup(&self, id: DFAId) -> &DFA {
+        self.lookup(id)
+    }
+
+    pub fn verif_len(&self) -> usize {
+        self.store.len()
+    }
+}
+
 impl PartialEq for DFA {
     fn eq(&self, other: &Self) -> bool {
         let Self {
